@@ -908,3 +908,39 @@ Section Keys.
       cbn [dotted mem] in *. apply orb_false_iff in ND. apply ND.
   Qed.
 End Keys.
+
+(** ** [lookup] without wild-card acceptance = the exact key (plain tries) *)
+Section LookupExact.
+  Variable V : Type.
+  Variable re_match : bytes -> bytes -> bool.
+
+  Lemma lookup_w_cget_false ss : forall (t : trie V) l,
+      wf V t -> Forall (fun s => dotted s = true) ss -> dotted l = false ->
+      lookup_w re_match t (ss ++ [l]) false = cget V t (map lab ss ++ [KLab l true]).
+  Proof.
+    induction ss as [|s ss IH]; intros [kv w ch rx] l W F D; pose proof (wf_rx V _ _ _ _ W) as ->.
+    - cbn [app map lookup_w cget t_children t_wild t_regexps].
+      destruct (aget l ch) as [c|] eqn:G.
+      + destruct (wf_child_leaf V _ _ _ _ _ _ W G D) as (k & v & ->). reflexivity.
+      + rewrite andb_false_r. reflexivity.
+    - inversion F as [|? ? Ds Fs]; subst.
+      cbn [app map lookup_w cget t_children t_wild t_regexps lab].
+      rewrite andb_false_r.
+      destruct (aget s ch) as [c|] eqn:G; [|reflexivity].
+      rewrite (IH c l (wf_child_dotted V _ _ _ _ _ _ W G Ds) Fs D).
+      destruct (cget V c (map lab ss ++ [KLab l true])); reflexivity.
+  Qed.
+
+  Lemma lookup_exact_getk (t : trie V) h :
+    good_key h -> label_of h <> [STAR] -> wf V t -> lookup re_match t h false = getk V re_match t h.
+  Proof.
+    intros G NS W. destruct (good_key_parts h G) as [L T].
+    rewrite getk_cget by assumption. rewrite (ksteps_good h G). unfold last_step.
+    assert (beq (label_of h) [STAR] = false) as -> by (apply beq_neq; exact NS).
+    unfold lookup. rewrite (label_tail h) at 1. rewrite lsegs_label_tail by assumption.
+    apply lookup_w_cget_false; auto.
+    - apply lsegs_tail_dotted; exact T.
+    - destruct L as (NE & ND & _). destruct (label_of h) as [|c x]; [congruence|].
+      cbn [dotted mem] in *. apply orb_false_iff in ND. apply ND.
+  Qed.
+End LookupExact.
